@@ -4,12 +4,15 @@ V = os.path.dirname(os.path.dirname(os.path.abspath(__file__)))
 CLAIMED = {
  "C01": dict(
    text="PARTIAL proof + validation. Proved: the closed form for the stars of the turning-off bin (IMF integrated below the turn-off mass) solves exactly the ODE the code "
-        "integrates (is_derive, from the verified moment integral and sweep speed), and the field's flux at such a state is that expression; the ties of IMF (C11), bins (C13), "
+        "integrates (is_derive, from the verified moment integral and sweep speed), the field's flux at such a state is that expression, any solution of that linear equation with the "
+        "same initial value IS the closed form (uniqueness), the closed form is the IMF integrated below the turn-off mass, and over any stretch with one deposit bin the stars that "
+        "left / the remnant mass deposited equal the IMF / the IMF-weighted remnant mass integrated over the progenitors swept by the turn-off (change of variables), for any "
+        "continuous IFMR; the ties of IMF (C11), bins (C13), "
         "lifetimes (C14), IFMR (C09) and field (C02) compose. Validated on every run, NOT proved: full constructions over random IMFs / layouts / metallicities / all IFMR methods / "
         "retention fractions / N0 / ages against the closed-form star counts and per-bin remnant numbers and masses (IMF above the turn-off pushed through the IFMR on a 40000-point "
         "progenitor grid), at the default tolerance and with the tolerance tightened from outside.",
    design="8/C01", technique="Coq/Coquelicot proof that the closed form solves the modelled ODE + closed-form differential validation of full runs",
-   note="Trusted: Coq kernel; Reals/Coquelicot axioms; NOT proved: the pre-image integral per remnant bin, uniqueness of the ODE solution, the Nmin cut-off residue (allowed for "
+   note="Trusted: Coq kernel; Reals/Coquelicot axioms; NOT proved: the summation of the per-stretch deposits over a whole history (bin / class changes), the Nmin cut-off residue (allowed for "
         "explicitly: 0.1 object per turned-off star bin) and dopri5's convergence; harness + fullrun.py."),
  "C05": dict(
    text="Proof: the mean mass P2/P1 of a star bin truncated at the turn-off mass lies strictly between the lower edge and min(upper edge, turn-off mass) for every slope; the remnant "
